@@ -107,18 +107,38 @@ def search_rule(ctx):
         r = path.ret
         okc = False
         why = "not `torch.sum(inputs[..., None] >= knots, dim=-1) - 1`"
-        if isinstance(r, ast.BinOp) and isinstance(r.op, ast.Sub) and const_number(r.right) == 1 and isinstance(r.left, ast.Call) and norm_text(r.left.func) in ("torch.sum",) and r.left.args:
-            dim = next((k.value for k in r.left.keywords if k.arg == "dim"), r.left.args[1] if len(r.left.args) > 1 else None)
-            c = r.left.args[0]
+        from ..astutil import as_reduction
+
+        recognised = False
+        red = as_reduction(r.left, ("sum",)) if isinstance(r, ast.BinOp) and isinstance(r.op, ast.Sub) and const_number(r.right) == 1 else None
+        if red is None and as_reduction(r, ("sum",)) is not None and isinstance(as_reduction(r, ("sum",))[1], ast.Compare):
+            recognised = True
+            why = "the count of knots at or left of the input is returned without `- 1`: every bin index is one too large"
+        if red is not None:
+            _, c, dim = red
+            while isinstance(c, ast.Call) and isinstance(c.func, ast.Attribute) and c.func.attr in ("long", "int", "float") and not c.args:
+                c = c.func.value
             if isinstance(c, ast.Compare) and len(c.ops) == 1 and dim is not None and const_number(dim) == -1:
                 l, rr = c.left, c.comparators[0]
                 op = type(c.ops[0])
+                # knots <= x[..., None] is the same comparison written from the other side
+                flip = {ast.LtE: ast.GtE, ast.Lt: ast.Gt, ast.GtE: ast.LtE, ast.Gt: ast.Lt}
+                if norm_text(rr).replace(" ", "") in ("%s[...,None]" % x, "%s.unsqueeze(-1)" % x) and op in flip:
+                    l, rr, op = rr, l, flip[op]
                 lt = norm_text(l).replace(" ", "")
                 is_x = lt in ("%s[...,None]" % x, "%s.unsqueeze(-1)" % x)
                 core, stores = strip_stores(rr)
-                core_is_knots = isinstance(core, ast.Name) and core.id == knots or (isinstance(core, ast.Call) and norm_text(core.func) in ("%s.clone" % knots,))
-                if is_x and op is ast.GtE and core_is_knots:
+                shifted_all = False
+                if isinstance(core, ast.BinOp) and isinstance(core.op, ast.Add) and eps is not None and eps in (norm_text(core.left), norm_text(core.right)):
+                    core = core.right if norm_text(core.left) == eps else core.left
+                    shifted_all = True
+                core_is_knots = isinstance(core, ast.Name) and core.id == knots or (isinstance(core, ast.Call) and norm_text(core.func) in ("%s.clone" % knots,) and not core.args)
+                if shifted_all and core_is_knots:
+                    recognised = True
+                    why = "the epsilon is added to every knot, not only the last one: all bin edges move and inputs on a knot fall into the bin to its left"
+                elif is_x and op is ast.GtE and core_is_knots:
                     okc = True
+                    recognised = True
                     # epsilon: one store on (..., -1) adding eps
                     if eps is not None:
                         good = [1 for idx, val in stores if norm_text(idx).replace(" ", "") == "(...,-1)" and eps in {n.id for n in ast.walk(val) if isinstance(n, ast.Name)}]
@@ -126,10 +146,21 @@ def search_rule(ctx):
                             res.ok("searchsorted: eps added to the last knot only")
                         else:
                             res.fail(Finding("UT-SEARCH", fi.module, fi.qualname, path.ret_node, "the right-edge epsilon must be added to the last knot only (found %d knot stores)" % len(stores)))
-                elif is_x and op is ast.Gt:
+                elif is_x and op is ast.Gt and core_is_knots:
+                    recognised = True
                     why = "comparator `>` makes the bins (l, r]: an input equal to a knot falls into the bin to its left, and the lower end-point gets index -1"
-                elif not is_x:
+                elif is_x and op in (ast.LtE, ast.Lt) and core_is_knots:
+                    recognised = True
+                    why = "the comparison counts the knots to the right of the input instead of those at or to its left"
+                elif core_is_knots and not is_x:
+                    recognised = True
                     why = "the comparison must broadcast inputs[..., None] against the knots"
+            elif isinstance(c, ast.Compare) and dim is not None and const_number(dim) is not None and const_number(dim) != -1:
+                recognised = True
+                why = "the count of knots must be taken over the last axis (dim=-1)"
+        if not okc and not recognised:
+            res.undecide("searchsorted", "the bin search is not of the form sum(inputs[..., None] >= knots, dim=-1) - 1 in any known spelling")
+            continue
         if okc:
             res.ok("searchsorted: sum(inputs[..., None] >= knots, dim=-1) - 1")
         else:
